@@ -36,12 +36,15 @@ import numpy as np
 
 MAXDEN = 6
 FLAVOURS = [(c, t) for c in ('list', 'array') for t in ('int', 'str')]
-OKEYS = ('obs', 'cond', 'sess', 'time', 'phase', 'bins')
+OKEYS = ('obs', 'cond', 'sess', 'time', 'phase', 'bins', 'flag', 'mark')
 CKEYS = ('chan', 'roi', 'time', 'phase', 'bins')
 TKEYS = ('time', 'phase', 'bins')
-DKEYS = ('obs', 'cond', 'sess', 'time', 'phase', 'bins', 'chan', 'roi')
-INTKEYS = ('obs', 'cond', 'sess', 'chan', 'roi', 'phase')
-_PFX = {'obs': 'o', 'cond': 'c', 'sess': 's', 'chan': 'h', 'roi': 'r', 'phase': 'p'}
+DKEYS = ('obs', 'cond', 'sess', 'time', 'phase', 'bins', 'flag', 'mark', 'chan', 'roi')
+INTKEYS = ('obs', 'cond', 'sess', 'chan', 'roi', 'phase', 'flag', 'mark')
+MISSKEYS = ('flag', 'mark')
+MISSING = -1
+LAYOUTS = ('C', 'F', 'T', 'S')    # memory layout of the source measurements
+_PFX = {'obs': 'o', 'cond': 'c', 'sess': 's', 'chan': 'h', 'roi': 'r', 'phase': 'p', 'flag': 'f', 'mark': 'm'}
 PRODUCERS = ('split_obs', 'split_channel', 'split_time', 'split_merge', 'subset_obs', 'subset_channel',
              'subset_time', 'merge', 'odd_even', 'nested_odd_even', 'bin_time', 'time_as_observations',
              'time_as_channels', 'df', 'copy', 'saveload', 'dict')
@@ -64,6 +67,14 @@ def roi(c):
 
 def phase(t):
     return 1 + (t % 2)
+
+
+def flag(o):
+    return 1 if o % 2 == 0 else MISSING
+
+
+def mark(o):
+    return MISSING if o % 3 == 0 else o % 3
 
 
 def absent(k):
@@ -103,6 +114,10 @@ def _rowval(row, k):
         return cond(o)
     if k == 'sess':
         return sess(o)
+    if k == 'flag':
+        return flag(o)
+    if k == 'mark':
+        return mark(o)
     return _tlval(tl, k)
 
 
@@ -158,8 +173,10 @@ def enc(key, v, flavour):
         return float(Fraction(v[0], v[1]))
     if key == 'bins':
         return np.array2string(np.array([float(Fraction(a, b)) for a, b in v]), precision=2, separator=',')
+    if v == MISSING and key in MISSKEYS:
+        return float('nan') if flavour[1] == 'int' else None      # a missing entry
     if flavour[1] == 'int':
-        return int(v)
+        return float(v) if key in MISSKEYS else int(v)
     return f'{_PFX[key]}{int(v):02d}'
 
 
@@ -198,6 +215,8 @@ def dec(key, v):
     """real descriptor entry -> abstract value"""
     if isinstance(v, (bytes, np.bytes_)):
         v = v.decode()
+    if key in MISSKEYS and (v is None or (isinstance(v, (float, np.floating)) and v != v)):
+        return MISSING
     if key == 'time':
         return q(_frac(v, what='time'))
     if key == 'bins':
@@ -308,28 +327,57 @@ def diff(real, spec):
 # ------------------------------------------------------------------ real objects
 def src_fields(src):
     kind = src // 10000
-    return kind, (src // 100) % 100, (src // 10) % 10, (1 if kind == 1 else src % 10)
+    return kind, (src // 100) % 100, (src // 10) % 10, (1 if kind in (1, 4) else src % 10)
 
 
 def _container(vals, flavour):
-    return list(vals) if flavour[0] == 'list' else np.array(vals)
+    if flavour[0] == 'list':
+        return list(vals)
+    if any(v is None for v in vals):
+        return np.array(vals, dtype=object)
+    return np.array(vals)
 
 
-def make_source(src, flavour):
+def _layout(m, layout):
+    """the same logical array in another memory layout: C-contiguous, Fortran-contiguous, a
+    transposed view of an array stored with the axes reversed, a strided (non-contiguous) slice"""
+    if layout == 'C':
+        return np.ascontiguousarray(m)
+    if layout == 'F':
+        return np.asfortranarray(m)
+    if layout == 'T':
+        stored = np.ascontiguousarray(m.transpose(tuple(range(m.ndim))[::-1]))
+        return stored.transpose(tuple(range(m.ndim))[::-1])
+    big = np.full(m.shape[:-1] + (2 * m.shape[-1],), -7.0)
+    big[..., ::2] = m
+    view = big[..., ::2]
+    if m.ndim == 2:                       # also strided along the observations
+        big2 = np.full((2 * m.shape[0], 2 * m.shape[1]), -7.0)
+        big2[::2, ::2] = m
+        view = big2[::2, ::2]
+    return view
+
+
+def make_source(src, flavour, layout='C'):
     from rsatoolbox.data.dataset import Dataset, TemporalDataset
     kind, no, nc, nt = src_fields(src)
     m = np.zeros((no, nc, nt))
     for o in range(no):
         for c in range(nc):
             for t in range(nt):
-                m[o, c, t] = 100 * (o + 1) + 10 * (c + 1) + (0 if kind == 1 else 2 ** t)
+                m[o, c, t] = 100 * (o + 1) + 10 * (c + 1) + (0 if kind in (1, 4) else 2 ** t)
     od = {'obs': _container([enc('obs', o + 1, flavour) for o in range(no)], flavour),
           'cond': _container([enc('cond', cond(o + 1), flavour) for o in range(no)], flavour),
           'sess': _container([enc('sess', sess(o + 1), flavour) for o in range(no)], flavour)}
     cd = {'chan': _container([enc('chan', c + 1, flavour) for c in range(nc)], flavour),
           'roi': _container([enc('roi', roi(c + 1), flavour) for c in range(nc)], flavour)}
-    if kind == 1:
-        return Dataset(m[:, :, 0].copy(), descriptors={'session': 'x'}, obs_descriptors=od, channel_descriptors=cd)
+    if kind >= 4:
+        od['flag'] = _container([enc('flag', flag(o + 1), flavour) for o in range(no)], flavour)
+        od['mark'] = _container([enc('mark', mark(o + 1), flavour) for o in range(no)], flavour)
+    if kind in (1, 4):
+        return Dataset(_layout(m[:, :, 0].copy(), layout), descriptors={'session': 'x'}, obs_descriptors=od,
+                       channel_descriptors=cd)
+    m = _layout(m, layout)
     td = {'time': _container([float(t + 1) for t in range(nt)], flavour)}
     if kind == 3:
         td['phase'] = _container([enc('phase', phase(t + 1), flavour) for t in range(nt)], flavour)
@@ -610,9 +658,10 @@ def project_heap(heap, maxobj):
     return [project(heap[o]) if o in heap else dict(NULL_OBS) for o in range(1, maxobj + 1)]
 
 
-def replay(src, hist, maxobj, flavour, variant=0, scratch=None):
+def replay(src, hist, maxobj, flavour, variant=0, scratch=None, layout=None):
     """Step one TLC behaviour through real objects.  Returns None or (step, key-suffix, detail)."""
-    heap = {1: make_source(src, flavour)}
+    layout = layout or LAYOUTS[variant % 4]
+    heap = {1: make_source(src, flavour, layout)}
     prev = [expected(None)] * maxobj
     prev[0] = project(heap[1])
     for k, st in enumerate(hist):
@@ -699,16 +748,16 @@ def _groups(col):
     return u, [[i for i, x in enumerate(col) if x == v] for v in u]
 
 
-def random_trace(rng, src, const, flavour, length, ops, scratch=None):
+def random_trace(rng, src, const, flavour, length, ops, scratch=None, layout='C'):
     """random admissible history on real objects; returns the list of events with the projected
     post heap and output.  Admissibility mirrors Enabled() of the specification; the trace
     specification checks Enabled() itself, so a disagreement shows up as 'not enabled' (a machinery
     error, not a verdict)."""
     maxobj, maxrows, maxcols, maxtims = const['MaxObj'], const['MaxRows'], const['MaxCols'], const['MaxTims']
-    heap = {1: make_source(src, flavour)}
+    heap = {1: make_source(src, flavour, layout)}
     kind, no, nc0, nt0 = src_fields(src)
     # ghost time weights of temporal objects, only to respect the MaxDen enabling condition of bin_time
-    ghost = {1: [[Fraction(int(u == t)) for u in range(nt0)] for t in range(nt0)] if kind != 1 else None}
+    ghost = {1: [[Fraction(int(u == t)) for u in range(nt0)] for t in range(nt0)] if kind not in (1, 4) else None}
     events = []
     tries = 0
     while len(events) < length and tries < length * 40:
@@ -726,7 +775,8 @@ def random_trace(rng, src, const, flavour, length, ops, scratch=None):
         if op in PRODUCERS and free is None:
             continue
         if op in ('split_obs', 'split_merge', 'subset_obs', 'sort_by', 'odd_even', 'nested_odd_even', 'average_by', 'tensor'):
-            cand = [k for k in okeys if not (op == 'sort_by' and k == 'bins')]
+            cand = [k for k in okeys if not (op == 'sort_by' and k == 'bins')
+                    and not (k in MISSKEYS and op != 'subset_obs')]
             if not cand or (op in ('average_by', 'tensor') and a['kind'] != 'F'):
                 continue
             e['by'] = str(rng.choice(cand))
@@ -737,6 +787,9 @@ def random_trace(rng, src, const, flavour, length, ops, scratch=None):
                 e['o2'] = int(rng.integers(1, min(len(u), 4) + 1))
             elif op == 'subset_obs':
                 kk = int(rng.integers(1, 3))
+                u = [v for v in u if not (e['by'] in MISSKEYS and v == MISSING)]
+                if not u:
+                    continue
                 e['vals'] = [u[int(i)] for i in rng.integers(0, len(u), size=kk)]
             elif op == 'odd_even':
                 if len(u) < 2:
@@ -818,6 +871,8 @@ def random_trace(rng, src, const, flavour, length, ops, scratch=None):
             b = project(heap[o2])
             e['o2'] = o2
             if nr + len(b['val']) > maxrows or a['kind'] != b['kind']:
+                continue
+            if any(x['dd'][k] == MISSING for x in (a, b) for k in MISSKEYS):
                 continue
             if o2 != o:
                 if _untracked(a) or _untracked(b) or a['cd'] != b['cd'] or a['td'] != b['td'] or _colsig(a) != _colsig(b):
